@@ -172,8 +172,9 @@ func validateTasks(task *TaskNode) error {
 // be closed using Close after it is no longer needed.
 func (w *Worker) Open(ctx context.Context) (err error) {
 	var r rollback.R
+	var rollbackErrs []error
 	defer func() {
-		rollbackErr := r.Execute()
+		rollbackErr := cerrors.Join(r.Execute(), cerrors.Join(rollbackErrs...))
 		err = cerrors.LogOrReplace(err, rollbackErr, func() {
 			w.logger.Err(ctx, rollbackErr).Msg("failed to execute rollback")
 		})
@@ -191,7 +192,14 @@ func (w *Worker) Open(ctx context.Context) (err error) {
 		}
 
 		r.Append(func() error {
-			return task.Close(ctx)
+			// Keep rolling back when one task fails to close: rollback.R stops
+			// at the first error, which would leave every task opened before
+			// this one open for good (a processor then stays marked as running
+			// and the pipeline can never be started again).
+			if closeErr := task.Close(ctx); closeErr != nil {
+				rollbackErrs = append(rollbackErrs, cerrors.Errorf("task %s failed to close: %w", task.ID(), closeErr))
+			}
+			return nil
 		})
 		if _, isSource := task.(*SourceTask); isSource {
 			// SourceTask.Close is deliberately a no-op (the worker tears the
